@@ -144,8 +144,61 @@ def gen_random(tier, seed):
     return cases
 
 
+def loop_monitor(case, il, sl):
+    """The allocator inside the real I/O loop: no panic, no error out of an open/close sequence, no
+    id shared by two open channels, and every id 1..=channel_max usable (its events are dispatched)."""
+    import monitors, refmon
+    tr = refmon.Trace(case, il)
+    v = monitors.crash(tr, "c10-loop-crash")
+    if v:
+        return v
+    v = monitors.shared_ids(tr, "c10-loop-shared")
+    if v:
+        return v
+    for k, (o, g) in enumerate(tr.al):
+        e = next((l for l in g if l.startswith("res err") or "PANIC" in l), None)
+        if e and case.meta.get("no_errors"):
+            return ("`%s` -> %s: an open/close sequence ended the I/O loop" % (o[:60], e), "c10-loop-error")
+    return None
+
+
+def gen_loop(tier, seed):
+    import machgen as mg
+    import amqp
+    from props import c18
+    rng = Rng(seed + 1010)
+    cases = []
+    # the highest ids: channel_max 65535 (both sides unlimited), ids 65534 and 65535 opened, used, closed
+    for ids in ([65535], [65534, 65535], [1, 65535]):
+        g = mg.Gen(rng, chmax=65535, bound=4, via_stream=0.0)
+        hs = {}
+        for c in ids:
+            h = g.open_channel(c); g.bind_opened(h, c); hs[c] = h
+        for c in ids:
+            g.rpc(hs[c])
+        for c in ids:
+            g.op("send %s send %s" % (hs[c], mg.hx(amqp.method(c, "channel.close", amqp.close_args(0, ""))))); g.op("ev %d" % c)
+            g.feed([mg.chan_close_ok(c)]); g.op("recv %s -" % hs[c])
+            del g.handles[hs[c]]
+        h = g.open_channel(ids[-1]); g.bind_opened(h, ids[-1])
+        g.finish()
+        c = g.case("hi%d" % len(cases)); c.meta["no_errors"] = True
+        cases.append(c)
+    # every short open/close history, with calls in flight
+    for c in mg.id_lifecycle_cases(Rng(seed + 7), 2, 5 if tier == "quick" else 7, stride=1, prefix="l"):
+        c.meta["no_errors"] = True
+        cases.append(c)
+    # channels opened and closed while the loop is throttled (non-zero channels deregistered)
+    for c in c18.resume_cases(tier, seed + 3):
+        c.meta["no_errors"] = True
+        cases.append(c)
+    return cases
+
+
 def suites(tier, seed):
     ss = [
+        Suite("ids-in-the-loop", "machine", lambda: gen_loop(tier, seed), monitor=loop_monitor, nontrivial=lambda c, il: True, canon=__import__("machgen").canon_nondet, candidate_ok=__import__("machgen").candidate_ok, shards=4,
+              rule="the allocator inside the REAL I/O loop (machine engine): channel_max 65535 with ids 65534 / 65535 opened, used, closed and reopened; every sequence of 5 (thorough: 7) opens / closes with channel_max 2 and calls in flight; channels opened and closed while the loop is throttled, then resumed: no panic, no error, no shared id, every reply to its channel"),
         Suite("slots-random", "slots", lambda: gen_random(tier, seed), monitor=monitor, nontrivial=nontrivial,
               rule="corpus (D1/D2a/D2b witnesses) + random op sequences over some/none/remove for channel_max in {1,2,3,4,7,64}, lengths up to 40*max (<=300), half of them biased to free-then-explicit-then-auto"),
         Suite("slots-exhaustive", "slots", lambda: gen_exhaustive(tier), monitor=monitor, nontrivial=nontrivial, exhaustive=True,
